@@ -225,6 +225,14 @@ def build_scenario(sc):
         f = np.array([v / D for v in nums], dtype=np.float64)
     o = _rotations((N, M), rng)
     seeds = [int(x) for x in rng.choice(2**31 - 1, size=sc.get("calls", 1), replace=False)]
+    # seed classes: "for a given seed" includes the smallest seeds (0 is a seed, not "no seed") and numpy integers
+    pick = int(rng.integers(0, 6))
+    if pick == 0:
+        seeds[0] = 0
+    elif pick == 1:
+        seeds[0] = 1
+    elif pick == 2:
+        seeds[0] = np.int64(seeds[0])
     return o, f, nums, D, seeds[0], seeds[1:]
 
 
